@@ -21,7 +21,8 @@ PROPS = {
         part("plain", "stack", "TestVerifC06"),
         part("history", "stack", "TestVerifC06History"),
         part("processes", "stack", "TestVerifC06Processes")]},
-    "C07": {"level": "model_checking", "parts": [part("bfs", "stack", "TestVerifC07"), part("streams", "stack", "TestVerifC07")]},
+    "C07": {"level": "model_checking", "parts": [part("bfs", "stack", "TestVerifC07"), part("streams", "stack", "TestVerifC07"),
+                                                 part("cli", "internal", "TestVerifC07CLI", needs_pp=True)]},
     "C08": {"level": "exploration", "parts": [part("race", "stack", "TestVerifC08")]},
     "C09": {"level": "model_checking", "parts": [
         part("a4", "stack", "TestVerifC09", variant="smallbuf-4"),
